@@ -805,6 +805,12 @@ func (dsc *dataStoreCommand) copy(srcKeyName, destKeyName string, dds *dataStore
 	}
 
 	newSk, destExists := dsc.ds.copyStoreKeyUnlocked(srcKeyName, destKeyName, dds, replace)
+	if newSk != nil {
+		if list := newSk.getList(); list != nil {
+			// a list appeared under the destination name: clients blocked on it are served
+			dds.unblockListUnlocked(destKeyName, list.count)
+		}
+	}
 	if newSk == nil {
 		if destExists {
 			return RESULT_DESTINATION_EXISTS
@@ -837,6 +843,12 @@ func (dsc *dataStoreCommand) move(srcKeyName, destKeyName string, dds *dataStore
 	}
 
 	newSk, destExists := dsc.ds.moveStoreKeyUnlocked(srcKeyName, destKeyName, dds, replace)
+	if newSk != nil {
+		if list := newSk.getList(); list != nil {
+			// a list appeared under the destination name: clients blocked on it are served
+			dds.unblockListUnlocked(destKeyName, list.count)
+		}
+	}
 	if newSk == nil {
 		if destExists {
 			return RESULT_DESTINATION_EXISTS
@@ -3224,6 +3236,7 @@ func (dsc *dataStoreCommand) sort(sourceKeyName, byPattern, destKeyName string, 
 			str, _ := element.toString()
 			dsc.rpushUnlocked(destKeyName, list, []byte(str))
 		}
+		dsc.ds.unblockListUnlocked(destKeyName, list.count)
 
 		output.data = respInt(list.count)
 	} else {
